@@ -201,7 +201,7 @@ JudgeFile(st, e) ==
   ELSE <<"ok", [st EXCEPT !.wdd = e.wdd, !.wod = e.wod, !.filed = TRUE]>>
 
 \* one packet handed back by a reader against packet i of the scenario
-PktReason(sc, wdd, wod, i, p, withopts) ==
+PktReason(sc, wdd, wod, i, p, withopts, mix) ==
   LET it == Packets(sc)[i]
       wo == withopts /\ sc.fmt = "ng" IN
   IF p.cap # it.cap THEN "capture-length-altered"
@@ -213,32 +213,45 @@ PktReason(sc, wdd, wod, i, p, withopts) ==
             THEN "timestamp-shifted-by-interface-offset"      \* the writer stores if_tsoffset but does not subtract it
             ELSE "timestamp-altered"
   ELSE IF sc.fmt = "ng" /\ p.ifc # it.ifc THEN "interface-index-altered"
-  ELSE IF sc.fmt = "ng" /\ sc.mixed /\ p.lt # LinkOf(sc, it) THEN "link-type-altered"
+  \* with WantMixedLinkType the link type of the packet's interface travels in ci.AncillaryData[0] (lt), otherwise none
+  ELSE IF sc.fmt = "ng" /\ p.lt # (IF mix THEN LinkOf(sc, it) ELSE -1) THEN "link-type-altered"
   ELSE IF wo /\ p.cm # it.cm THEN "comment-option-altered"
   ELSE IF wo /\ p.fl # it.fl THEN "flags-option-altered"
   ELSE IF wo /\ (p.dc # it.dc \/ p.pid # it.pid \/ p.q # it.q) THEN "numeric-option-altered"
   ELSE IF wo /\ (p.hs # it.hs \/ p.vd # it.vd \/ p.od # wod[i]) THEN "hash-or-verdict-option-altered"
   ELSE "ok"
-RECURSIVE FirstBad(_, _, _, _, _, _)
-FirstBad(sc, wdd, wod, pk, i, withopts) ==
-  IF i > Len(pk) THEN "ok"
-  ELSE LET r == PktReason(sc, wdd, wod, i, pk[i], withopts) IN IF r = "ok" THEN FirstBad(sc, wdd, wod, pk, i + 1, withopts) ELSE r
+\* the packets a full read must hand back, as indices into Packets(sc): all of them, except that a pcapng reader
+\* without WantMixedLinkType skips (as libpcap does) the packets of interfaces whose link type is not the first one's
+Expected(sc, mix) ==
+  LET P == Packets(sc)
+      all == [i \in 1..Len(P) |-> i]
+  IN IF sc.fmt = "ng" /\ ~mix THEN SelectSeq(all, LAMBDA i : LinkOf(sc, P[i]) = FirstLink(sc)) ELSE all
+RECURSIVE FirstBad(_, _, _, _, _, _, _, _)
+FirstBad(sc, wdd, wod, idx, pk, j, withopts, mix) ==
+  IF j > Len(pk) THEN "ok"
+  ELSE LET r == PktReason(sc, wdd, wod, idx[j], pk[j], withopts, mix)
+       IN IF r = "ok" THEN FirstBad(sc, wdd, wod, idx, pk, j + 1, withopts, mix) ELSE r
 
+\* A full read.  The packets of the copying calls are observed only AFTER the reader reached its end (the caller owns
+\* what a copying call returns), those of the zero-copy calls at once.  Cut runs are compared with the tuple digests
+\* of the configuration the driver uses for them: WantMixedLinkType on iff the scenario has mixed link types.
 JudgeRead(st, e) ==
   LET sc == st.sc
-      np == Len(Packets(sc))
+      mix == sc.fmt = "ng" /\ e.mix
+      idx == Expected(sc, mix)
       tds == [i \in 1..Len(e.pk) |-> e.pk[i].td]
-      fb == FirstBad(sc, st.wdd, st.wod, e.pk, 1, e.mode \in {"optc", "optz"})
+      forcuts == mix = (sc.fmt = "ng" /\ sc.mixed)
   IN
   IF ~st.filed THEN <<"bad-event", st>>
   ELSE IF e.end = "panic" THEN <<"panic", st>>
-  ELSE IF Len(e.pk) < np THEN <<"packet-lost", st>>
-  ELSE IF Len(e.pk) > np THEN <<"packet-invented", st>>
-  ELSE IF fb # "ok" THEN <<fb, st>>
+  ELSE IF Len(e.pk) < Len(idx) THEN <<"packet-lost", st>>
+  ELSE IF Len(e.pk) > Len(idx) THEN <<"packet-invented", st>>
+  ELSE IF FirstBad(sc, st.wdd, st.wod, idx, e.pk, 1, e.mode \in {"optc", "optz"}, mix) # "ok"
+       THEN <<FirstBad(sc, st.wdd, st.wod, idx, e.pk, 1, e.mode \in {"optc", "optz"}, mix), st>>
   ELSE IF e.end # "eof" THEN <<"no-clean-eof-after-last-packet", st>>
-  ELSE IF ~(sc.fmt = "ng" /\ sc.mixed) /\ e.link # FirstLink(sc) THEN <<"link-type-altered", st>>
-  ELSE IF st.td # <<>> /\ st.td # tds THEN <<"read-calls-disagree", st>>
-  ELSE <<"ok", [st EXCEPT !.td = tds]>>
+  ELSE IF ~mix /\ e.link # FirstLink(sc) THEN <<"link-type-altered", st>>
+  ELSE IF forcuts /\ st.td # <<>> /\ st.td # tds THEN <<"read-calls-disagree", st>>
+  ELSE <<"ok", IF forcuts THEN [st EXCEPT !.td = tds] ELSE st>>
 
 \* section and interface descriptions read back (pcapng)
 JudgeMeta(st, e) ==
